@@ -72,7 +72,22 @@ def h02a(c, mode="sim"):
             else:
                 order = lc.live_resting(fl, market, strategy, client, 100, 5.0)
         elif op == "place":
-            order = cm.mk_limit(strategy, c.choose("side", ["BACK", "LAY"]), 2.0, 5.0)
+            sibling = None
+            if src not in ("no-market-book",) and c.choose("trade_has_a_completed_sibling_order", [False, True]):
+                # entry and hedge created up-front in one trade: the entry was placed and has completed, the trade is still live (the hedge
+                # has not been placed yet); refusing the hedge must leave that trade and the runner accounting alone
+                if mode == "sim":
+                    sibling, _ = ss.resting_limit(c, "sib", fl, market, strategy, 90, status=S.EXECUTABLE, price=2.0, persistence="LAPSE", max_frags=0,
+                                                  allow_cancelled=False, side="BACK")
+                    c.assume(c.And(sibling.order_type.size >= 2, sibling.order_type.size <= 100))
+                else:
+                    sibling = lc.live_resting(fl, market, strategy, client, 90, 5.0)
+            order = cm.mk_limit(strategy, c.choose("side", ["BACK", "LAY"]), 2.0, 5.0, trade=sibling.trade if sibling is not None else None)
+            if sibling is not None:
+                with sibling.trade:
+                    sibling.execution_complete()
+                market.blotter.complete_order(sibling)
+                c.cover("completed-sibling")
         elif mode == "sim":
             order, _ = ss.resting_limit(c, "o", fl, market, strategy, 100, status=S.EXECUTABLE, price=2.0, persistence="LAPSE", max_frags=0,
                                         allow_cancelled=False, side="BACK")
@@ -84,13 +99,19 @@ def h02a(c, mode="sim"):
         # ---- an accepted request of another kind may still be in flight for the order (sent, not yet executed)
         outstanding = None
         if op != "place" and src in ("none", "market-not-open", "exposure", "txn-limit", "custom-control"):
-            outstanding = c.choose("outstanding_request", [None, "cancel", "update", "replace"])
+            outstanding = c.choose("outstanding_request", [None, "cancel", "update", "replace", "placement"])
             if outstanding == "cancel":
                 market.cancel_order(order, 1.0, force=True)
             elif outstanding == "update":
                 market.update_order(order, "PERSIST", force=True)
             elif outstanding == "replace":
                 market.replace_order(order, 2.5, force=True)
+            elif outstanding == "placement":
+                # the order's own placement has not been acknowledged yet: pending, no bet id
+                order.status = S.PENDING
+                order.status_log.append(S.PENDING)
+                order.bet_id = None
+                sent.append("placement in flight")
             if outstanding:
                 c.ob("outstanding-request-sent", len(sent) == 1)
                 sent.clear()
@@ -204,7 +225,9 @@ def h02a(c, mode="sim"):
             lc.blotter_coherence(c, market, list(market.blotter), tag="accepted.blotter")
             if op == "place":
                 # forcing skips the controls and nothing else: the runner is charged with the trade like for any other placement
-                c.ob("accepted-new-order.runner-charged", after["rc_trades"] == before["rc_trades"] + [order.trade.id] and after["rc_live"] == before["rc_live"] + [order.trade.id]
+                tid = order.trade.id
+                c.ob("accepted-new-order.runner-charged", after["rc_trades"] == before["rc_trades"] + ([tid] if tid not in before["rc_trades"] else [])
+                     and after["rc_live"] == before["rc_live"] + ([tid] if tid not in before["rc_live"] else [])
                      and after["rc_placed"] is not None and after["rc_invested"] is True, force=force)
 
 
